@@ -57,7 +57,8 @@ def make_scene(rng, name, tier):
     def complex_stream(shape_lead):
         P, mc = prototypes(rng, K, D, True)
         z = P[lab] + pert * mm.crandn(rng, (N, D)) / np.sqrt(2 * D)
-        g = 10.0 ** rng.uniform(-3, 3, size=(N, 1)) * np.exp(2j * np.pi * rng.random((N, 1)))
+        # "any per-frame complex gains": magnitudes over many decades (frames of a quiet and a loud passage)
+        g = 10.0 ** rng.uniform(-8, 8, size=(N, 1)) * np.exp(2j * np.pi * rng.random((N, 1)))
         return z * g, P, mc
 
     def real_stream(E, as_means):
@@ -66,7 +67,7 @@ def make_scene(rng, name, tier):
             P = P * float(rng.uniform(1.0, 5.0))
             y = P[lab] + pert * rng.normal(size=(N, E)) / np.sqrt(E)
         else:
-            y = (P[lab] + pert * rng.normal(size=(N, E)) / np.sqrt(E)) * 10.0 ** rng.uniform(-2, 2, size=(N, 1))
+            y = (P[lab] + pert * rng.normal(size=(N, E)) / np.sqrt(E)) * 10.0 ** rng.uniform(-8, 8, size=(N, 1))
         return y, P, mc
     if name in mm.COMPLEX_MODELS:
         y, P, mc = complex_stream(())
